@@ -108,8 +108,9 @@ def frac_int(nd):
 
 
 # ------------------------------------------------------------- impl runner
-def run_impl(ctx, cases, tag='impl'):
+def run_impl(ctx, cases, tag='impl', probes=None):
     spec = {'work': str(ctx.scratch / 'work'), 'out': str(ctx.scratch / f'{tag}_out.json'),
+            'probes': probes or [],
             'cases': [{k: c[k] for k in ('id', 'nodes', 'blocks', 'want', 'scale', 'offset', 'move', 'moved_blocks', 'history',
                                             'mod_args', 'dtype') if k in c}
                       for c in cases]}
@@ -275,6 +276,56 @@ def _collect(procs, failing, ctx):
         t = t.split(': list')[0]
         for a, b in re.findall(r'\((\d+)(?:%nat)?,\s*(\d+)(?:%nat)?\)', t):
             failing.setdefault(int(a), []).append(CHECKS[int(b)])
+
+
+# ------------------------------------- translator validation (face-table probes)
+PROBE_TYPES = {'tet': ('tbl_tet', '4%nat'), 'tet2': ('tbl_tet2', 'cols_tet2'), 'hex': ('tbl_hex', '8%nat'),
+               'pyr': ('tbl_pyr', '5%nat'), 'prism': ('tbl_prism', '6%nat'), 'hexprism': ('tbl_hexprism', '12%nat')}
+
+
+def gen_probes(rng, per_type):
+    """connectivity rows with pairwise different, sparse, unsorted node ids for each of the six solid
+    types _generate_all_faces has a table for (hexprism is reached by no mesh generator)"""
+    out = []
+    for typ in c10_tables.TYPES:
+        for k in range(per_type):
+            n_rows = 1 + k % 3
+            ids = rng.sample(range(1, 10 ** rng.choice([2, 4, 9, 12])), n_rows * c10_tables.ARITY[typ])
+            a = c10_tables.ARITY[typ]
+            out.append({'type': typ, 'rows': [ids[j * a:(j + 1) * a] for j in range(n_rows)]})
+    return out
+
+
+def run_coq_probes(ctx, probes, obs):
+    """generated tables applied inside Coq (Corr.check_probe) vs what _generate_all_faces returned;
+    -> list of indices of disagreeing probes, or None when the scratch file failed"""
+    txt = list(HEADER) + ['From FV.C10.gen Require Import FaceTables.']
+    items = []
+    for k, (p, o) in enumerate(zip(probes, obs)):
+        tb, nc = PROBE_TYPES[p['type']]
+        if is_err(o):
+            items.append('(%d%%nat, false)' % k)
+            continue
+        groups = lib.coq_list([lib.coq_list([zl(f) for f in g]) for g in o['groups']])
+        items.append('(%d%%nat, check_probe %s %s %s %s)' % (k, tb, nc, lib.coq_list([zl(r) for r in p['rows']]), groups))
+    txt.append('Definition probes : list (nat * bool) := %s.' % lib.coq_list(items))
+    txt.append('Goal True. idtac "@@ failing". Abort.')
+    txt.append('Eval vm_compute in map fst (filter (fun c => negb (snd c)) probes).')
+    rc, out, err = ctx.coq_eval('Probes', '\n'.join(txt) + '\n')
+    if rc != 0:
+        ctx.log('probe scratch file failed:', err[-400:])
+        return None
+    t = lib.parse_marked(out).get('failing', '').split(': list')[0]
+    return [int(x) for x in re.findall(r'\d+', t)]
+
+
+def probe_oracle(p, o):
+    """the face rows of one element as orientation-free node sets against the independent FACE_CYCLES"""
+    if p['type'] not in FACE_CYCLES or is_err(o):
+        return None if not is_err(o) else 'raises'
+    exp = sorted(tuple(sorted(r[j] for j in cyc)) for r in p['rows'] for cyc in FACE_CYCLES[p['type']])
+    got = sorted(tuple(sorted(f)) for g in o['groups'] for f in g)
+    return None if exp == got else 'face_sets_differ'
 
 
 # ------------------------------------------------- property oracle (Python)
@@ -570,9 +621,11 @@ def plate(rng, n):
 
 
 # ------------------------------------------------------------------ cases
-def gen_cases(ctx):
+def gen_cases(ctx, widened=False):
     rng = ctx.rng
     n_valid = 110 if ctx.tier == 'quick' else 1500
+    if widened and ctx.tier == 'quick':
+        n_valid = 440
     cases = []
     kinds = ['hex', 'tet', 'pyr', 'prism', 'hexpyr', 'mix', 'tetprism', 'tet', 'mix']
     for k in range(n_valid):
@@ -620,13 +673,15 @@ def gen_cases(ctx):
     hkinds = ['prism', 'pyr', 'mix', 'hexpyr', 'tetprism', 'tet', 'hex']
     single = ['prism', 'pyr', 'tet', 'hex']
     n_hist = 39 if ctx.tier == 'quick' else 390
+    if widened and ctx.tier == 'quick':
+        n_hist = 78
     for k in range(n_hist):
         tpl = templates[k % len(templates)]
         mods = [op for rnd in tpl for op in rnd if op.startswith('M:')]
         needs_single = any(op in ('M:assign_new', 'M:assign_same', 'M:positive', 'M:positive2') for op in mods)
         kind = single[(k // len(templates)) % len(single)] if needs_single else hkinds[k % len(hkinds)]
         if any(op.startswith('M:positive') for op in mods):
-            kind = ['tet', 'hex'][(k // len(templates)) % 2]      # _permute exists for tet and hex only
+            kind = 'tet'      # femio's _permute exists for tet only (NotImplementedError for every other type)
         kw = {}
         if 'M:remove_useless_nodes' in mods:
             kw = {'extra_nodes': rng.choice([1, 3, 5]), 'extra_pos': ['first', 'middle', 'last'][(k // len(templates)) % 3]}
@@ -664,6 +719,8 @@ def gen_cases(ctx):
     # second stream: not oriented-conforming (one element inverted) / dangling node id:
     # model and implementation must still agree; the predicates must say "no"
     n_bad = 12 if ctx.tier == 'quick' else 150
+    if widened and ctx.tier == 'quick':
+        n_bad = 36
     for k in range(n_bad):
         kind = kinds[k % len(kinds)]
         if k % 3 == 2:
@@ -761,31 +818,47 @@ def main(ctx):
         'STL export cannot run here (numpy-stl absent): only its use of extract_surface is covered',
         'elements are tet, tet2, pyr, prism, hex; polygons/polyhedra are outside the model',
     ]
-    # 1. translate
+    # 1. translate (T).  A region the translator cannot read is not by itself a violation: the
+    # committed baseline tables become the hand model of that region (tie H) and the correspondence
+    # is widened (BUILDERS_R5 policy); only a disagreement / a failing input is a violation.
     tie_ok = True
+    gen_file = lib.COQ / 'C10' / 'gen' / 'FaceTables.v'
+    baseline = lib.COQ / 'C10' / 'gen_baseline' / 'FaceTables.v'
     try:
         tr, consumed = c10_tables.translate(str(lib.REPO))
         ctx.sources = consumed
-        lib.write_if_changed(lib.COQ / 'C10' / 'gen' / 'FaceTables.v', c10_tables.emit(tr))
-    except (c10_tables.TranslateError, SyntaxError, OSError) as e:
+        lib.write_if_changed(gen_file, c10_tables.emit(tr))
+        ctx.notes['tie_tables'] = 'T (tables re-translated from the tree under test)'
+    except (c10_tables.TranslateError, SyntaxError, OSError, RecursionError) as e:
         tie_ok = False
         ctx.notes['translator_error'] = str(e)
-        ctx.log('translator failed closed:', e)
-    # 2. proofs
+        ctx.log('translator could not read the face tables:', e, '-> baseline tables + widened correspondence')
+        try:
+            ctx.sources = c10_tables.region_hashes(str(lib.REPO))
+        except Exception:          # noqa
+            pass
+    fallback = False
+    if not tie_ok and baseline.exists():
+        lib.write_if_changed(gen_file, baseline.read_text())
+        fallback = True
+    # 2. proofs (in fallback mode: about the baseline tables)
     proof_ok = False
-    if tie_ok:
+    if tie_ok or fallback:
         proof_ok, log = ctx.build_props('C10/Props.v', extra_targets=['C10/Corr.vo'])
         proof_ok = fix_obligations(ctx) and bool(ctx.obligations)
         if not proof_ok:
             ctx.notes['build_log_tail'] = log[-1500:]
+        if fallback:
+            for o in ctx.obligations:
+                o['note'] = (o.get('note') or '') + ' [about the baseline face tables: translator could not read the tree under test]'
     else:
         for n in lib.theorem_names(lib.COQ / 'C10' / 'Props.v'):
             ctx.obligations.append({'name': n, 'discharged': False, 'assumptions': [],
-                                    'note': 'translator failed closed'})
-    model_ok, _, _ = lib.coq_make(['C10/Corr.vo']) if tie_ok else (False, '', 0)
+                                    'note': 'translator failed closed, no baseline'})
+    model_ok, _, _ = lib.coq_make(['C10/Corr.vo']) if (tie_ok or fallback) else (False, '', 0)
 
-    # 2b. exact-body tie of the OBJ writer (size-dependent behaviour is out of reach of the in-Coq
-    # evaluation): a rewrite is tie-broken and widens the search to > 8 192 and > 65 536 faces
+    # 2b. body fingerprint of the OBJ writer (size-dependent behaviour is out of reach of the in-Coq
+    # evaluation): a changed body is not a violation, it widens the search to > 8 192 and > 65 536 faces
     obj_ok, obj_fp = c10_objpin.check(str(lib.REPO))
     ctx.sources['femio/formats/obj/write_obj.py:OBJWriter(ast)'] = obj_fp
     ctx.notes['obj_writer_pinned'] = obj_ok
@@ -797,7 +870,7 @@ def main(ctx):
         c = json.loads(p.read_text())
         c['meta'] = dict(c.get('meta', {}), corpus=p.name)
         cases.append(c)
-    gen = gen_cases(ctx)
+    gen = gen_cases(ctx, widened=fallback)
     if not obj_ok:
         ctx.log('OBJWriter differs from the pinned body: extended search with large plates')
         gen.append(plate(ctx.rng, 182))
@@ -807,8 +880,10 @@ def main(ctx):
         c['id'] = i
         c.setdefault('valid', True)
         c.setdefault('want', want_for(c))
-    res = run_impl(ctx, cases)
-    ctx.log(f'implementation ran on {len(cases)} meshes')
+    probes = gen_probes(ctx.rng, 4 if (ctx.tier == 'quick' and not fallback) else 24)
+    res = run_impl(ctx, cases, probes=probes)
+    probe_obs = res.pop('probes')['rows']
+    ctx.log(f'implementation ran on {len(cases)} meshes and {len(probes)} face-table probes')
     cases += expand_history(cases, res)
     for c in cases:
         meta = c['meta']
@@ -853,8 +928,14 @@ def main(ctx):
                     'valid_stream': sum(1 for c in cases if c['valid']),
                     'second_stream': sum(1 for c in cases if not c['valid'])}
         ctx.log(f'correspondence: {len(cases)} cases, {n_dis} with a failing check')
+        probe_bad = run_coq_probes(ctx, probes, probe_obs)
+        ctx.corr['face_table_probes'] = len(probes)
+        ctx.corr['face_table_probe_disagreements'] = -1 if probe_bad is None else len(probe_bad)
+        for p in probes:
+            ctx.count('probe:' + p['type'])
     else:
         ctx.corr = {'cases': 0, 'disagreements': 0, 'note': 'model did not build'}
+        probe_bad = None
 
     # 6. violations
     reported = 0
@@ -893,17 +974,54 @@ def main(ctx):
                       'correspondence C10 (Corr.v checks ' + what + ')', found_input=False,
                       signature=signature(c, what), what='model and implementation disagree: ' + what)
         reported += 1
-    if not obj_ok and not oracle_bad:
-        ctx.violation('tie-broken', {'fingerprint': obj_fp, 'pinned': c10_objpin.PINNED},
-                      'class OBJWriter has the pinned abstract syntax (translate/c10_objpin.py)', 'it was rewritten',
-                      'exact-body tie of OBJWriter (Model.write_obj)', found_input=False,
-                      signature={'kind': 'tie-broken', 'what': 'OBJWriter'},
-                      what='OBJWriter rewritten; extended search (plates with 8 710 / 34 000 / 67 000 faces) found nothing')
-    if not tie_ok and not oracle_bad:
+    # face-table probes: generated (or baseline) tables vs _generate_all_faces itself
+    if probe_bad:
+        for k in probe_bad[:2]:
+            p, o = probes[k], probe_obs[k]
+            po = probe_oracle(p, o)
+            ctx.violation('correspondence' if po is None else 'impl-violation',
+                          {'probe': p, 'tables': 'baseline' if fallback else 'translated'},
+                          'the %s face table applied to the rows' % ('baseline' if fallback else 'translated'),
+                          o if is_err(o) else {'groups': o['groups']},
+                          'correspondence C10 (Corr.check_probe: _generate_all_faces on one connectivity array)',
+                          found_input=True, signature={'check': 'face_table_probe', 'type': p['type'],
+                                                       'oracle': po or 'same_node_sets'},
+                          what='_generate_all_faces(%s) differs from the %s table%s' % (
+                              p['type'], 'baseline' if fallback else 'translated',
+                              '' if po is None else ' and from the element\'s faces (' + po + ')'))
+            reported += 1
+    elif probe_bad is None and model_ok:
+        ctx.violation('correspondence', {'probes': len(probes)}, 'probe scratch file compiles', 'it did not',
+                      'correspondence C10 (Corr.check_probe)', found_input=False,
+                      signature={'check': 'face_table_probe', 'kind': 'scratch-failed'})
+        reported += 1
+    if not obj_ok:
+        # changed body => deeper search (done above: plates with 17 290 and 66 976 faces), never by itself a violation
+        ctx.notes['tie_obj_writer'] = ('H (OBJWriter body differs from the validated one, fingerprint %s; hand model '
+                                       'Model.write_obj + correspondence on %d meshes + oracle on plates with 9 246 / '
+                                       '17 290 / 66 976 boundary faces: %s)' % (
+                                           obj_fp[:12], ctx.corr.get('cases', 0),
+                                           'no disagreement' if not oracle_bad and not failing else 'DISAGREEMENT'))
+    if fallback:
+        n_corr = ctx.corr.get('cases', 0)
+        agree = not oracle_bad and not failing and probe_bad == [] and proof_ok and model_ok
+        ctx.notes['tie_tables'] = ('H (translator could not read femio/graph_processor.py face tables: %s; baseline '
+                                   'model coq/C10/gen_baseline/FaceTables.v + widened correspondence, %d cases + %d '
+                                   'face-table probes over all six types: %s)' % (
+                                       ctx.notes.get('translator_error'), n_corr, len(probes),
+                                       'all agree' if agree else 'DISAGREEMENT'))
+        ctx.trusted.append('baseline face tables coq/C10/gen_baseline/FaceTables.v as the hand model of '
+                           '_generate_all_faces / the extract_surface_fistr table (translator could not read them); '
+                           'tied by the widened correspondence only')
+        if not model_ok and not oracle_bad:
+            ctx.violation('tie-broken', {'translator_error': ctx.notes.get('translator_error')},
+                          'baseline model builds so that the widened correspondence can run', 'it does not build',
+                          'translator c10_tables + baseline', found_input=False, signature={'kind': 'tie-broken'})
+    if not tie_ok and not fallback and not oracle_bad:
         ctx.violation('tie-broken', {'translator_error': ctx.notes.get('translator_error')},
-                      'translator accepts _generate_all_faces / extract_surface_fistr', 'fail-closed',
+                      'translator accepts _generate_all_faces / extract_surface_fistr', 'fail-closed, no baseline',
                       'translator c10_tables', found_input=False, signature={'kind': 'tie-broken'})
-    if tie_ok and not proof_ok and not oracle_bad:
+    if (tie_ok or fallback) and not proof_ok and not oracle_bad:
         badn = [o['name'] for o in ctx.obligations if not o['discharged']]
         ctx.violation('proof-broken', {'undischarged': badn, 'log': ctx.notes.get('build_log_tail', '')[-600:]},
                       'all theorems of C10/Props.v check against the regenerated tables', 'do not check',
@@ -914,6 +1032,17 @@ def main(ctx):
 def replay(path):
     rp = json.loads(Path(path).read_text())
     c = rp['case']
+    if 'probe' in c:
+        ctx = lib.Ctx(PID, 'quick')
+        obs = run_impl(ctx, [], tag='replay', probes=[c['probe']])['probes']['rows']
+        po = probe_oracle(c['probe'], obs[0])
+        ok, _, _ = lib.coq_make(['C10/Corr.vo'])
+        bad = run_coq_probes(ctx, [c['probe']], obs) if ok else None
+        print('implementation:', json.dumps(obs[0])[:1500])
+        print('oracle (node sets of the element faces):', po or 'same')
+        print('tables in coq/C10/gen vs implementation:', 'differ' if bad or bad is None else 'agree')
+        print('property', 'VIOLATED' if (po or bad or bad is None) else 'holds', 'on this input')
+        return 1 if (po or bad or bad is None) else 0
     if 'nodes' not in c:
         print('nothing to replay on the implementation:', json.dumps(rp, indent=1)[:2000])
         return 1
